@@ -24,6 +24,7 @@ class FS(object):
         self.name = name
         self.nodes = {}
         self.log = []
+        self.open_files = {}
 
     def kind(self, p):
         n = self.nodes.get(p)
@@ -60,11 +61,34 @@ class FakePath(object):
     def join(self, a, b):
         return a.rstrip("/") + "/" + b
 
+    def getsize(self, p):
+        if self.fs.kind(p) != "file":
+            raise OSError("no such file: %r" % p)
+        return SymInt(self.fs.nodes[p][1].length_term())
+
+
+class StatResult(object):
+    def __init__(self, size):
+        self.st_size = size
+
 
 class FakeOS(object):
     def __init__(self, fs):
         self.fs = fs
         self.path = FakePath(fs)
+
+    def fstat(self, fd):
+        f = self.fs.open_files.get(fd)
+        if f is None or f.closed:
+            raise OSError(9, "Bad file descriptor")
+        return StatResult(SymInt(self.fs.nodes[f.path][1].length_term()))
+
+    def stat(self, p):
+        if self.fs.kind(p) is None:
+            raise OSError(2, "No such file or directory: %r" % p)
+        if self.fs.kind(p) != "file":
+            return StatResult(4096)
+        return StatResult(SymInt(self.fs.nodes[p][1].length_term()))
 
     def listdir(self, p):
         return self.fs.listdir(p)
@@ -88,6 +112,13 @@ class FakeFile(object):
                 raise IOError("no such file: %r" % path)
             self.rest = fs.nodes[path][1]
         self.reads = 0
+        self.fd = 10 + len(fs.open_files)
+        fs.open_files[self.fd] = self
+
+    def fileno(self):
+        if self.closed:
+            raise ValueError("I/O operation on closed file")
+        return self.fd
 
     def __enter__(self):
         return self
